@@ -528,6 +528,10 @@ func (t *ltrans) binary(x *ast.BinaryExpr, env lenv, ty types.Type) lval {
 			}
 			return lval{sort: sBool, lean: "(" + l.lean + " " + op + " " + r.lean + ")", text: text}
 		}
+		if l.text == "nil" && r.text == "nil" && (x.Op == token.EQL || x.Op == token.NEQ) {
+			// a variable that was assigned nil, compared with nil
+			return lval{sort: sBool, lean: fmt.Sprint(x.Op == token.EQL), text: text}
+		}
 		if x.Op == token.NEQ {
 			// normalise: a != b is the negation of the atom a == b
 			v := t.atom(l.text+" == "+r.text, sBool, 0)
